@@ -23,7 +23,7 @@ func init() {
 				"!developmentMode, storing the template just returned by the loader path under the path that was looked up; (C16.nocache) the cache flag is threaded unchanged " +
 				"(every call passes its own flag parameter inside the parse cycle; Set.Parse passes constant false); (C16.ext) the extension list is only ever ranged over " +
 				"(forward), each candidate is <path>+<extension>, the first hit returns, and Open/parse receive the string that Exists accepted; (C16.errs) errors of Open, ReadAll, " +
-				"parse and the lookup helpers are returned, never dropped or replaced by nil. (C16.put, continued) the key passed to Cache.Put is one a later lookup of the same name tries (the stored template's Name, or the form of a Cache.Get key). (C16.ext, continued) every Loader.Exists / Cache.Get of the Set lies inside a loop over the configured extensions.",
+				"parse and the lookup helpers are returned, never dropped or replaced by nil. (C16.put, continued) the key passed to Cache.Put is one a later lookup of the same name tries (the stored template's Name, or the form of a Cache.Get key). (C16.ext, continued) every Loader.Exists / Cache.Get of the Set lies inside a loop over the configured extensions. (C16.probe, continued) outside development mode no path of getTemplate reaches the loader without having asked the cache, whatever the caller's cache flag.",
 			NotDecided:  "what custom Cache/Loader implementations do; identity of templates requested under different spellings of one file (keys are requested paths); atomicity under concurrency (C11); the default extension list.",
 			Assumptions: []string{"a Cache returns what was Put under the same key (contract of the Cache interface)"},
 			Trusted:     commonTrusted,
@@ -325,7 +325,20 @@ func (c16) hitReturns(c *an.Ctx, f *an.Fn, cacheCall *ast.CallExpr, loaderFns ma
 		return
 	}
 	var unprobed token.Pos
+	// a probe written as a loop over the configured extensions: entering that loop is "the cache was asked" —
+	// with an empty list neither the cache nor (C16.ext: the loader is only asked inside such a loop) the loader is asked
+	var probeLoopX ast.Expr
+	for _, n := range an.EnclosingStmts(f, cacheCall) {
+		if rs, ok := n.(*ast.RangeStmt); ok && p.FieldKey(info, rs.X) == extsField {
+			probeLoopX = rs.X
+		}
+	}
 	hooks := an.Hooks{
+		Stmt: func(x *an.Explorer, n ast.Node, st *an.State) {
+			if probeLoopX != nil && n == ast.Node(probeLoopX) {
+				st.Set("probed", "1")
+			}
+		},
 		Call: func(x *an.Explorer, call *ast.CallExpr, st *an.State) {
 			if call == cacheCall {
 				st.Set("probed", "1")
